@@ -230,6 +230,95 @@ def legacy_factory(cuqi, rs, role):
     return c, (lambda target, cls=cls, sc=sc: cls(target, scale=sc))
 
 
+
+# ----------------------------------------------------------------------------- unusual initial-point objects
+ODD_MODES = ["int", "f32", "list", "scalar", "0d", "view", "ro", "shared", "shared", "mixed"]
+
+
+def odd_initial_points(rs, names, roles, classes, iface):
+    """Initial points that are not fresh float64 arrays: integer / float32 dtype, python lists and scalars, 0-d
+    arrays, views into a larger array, read-only arrays, ONE array object shared by all equal-size blocks.
+    Returns (mode, {name: object}, snapshots) — snapshots = [(label, object, bytes-or-copy)] of everything the
+    user owns (bases of views included), to be compared after the run."""
+    mode = str(rs.choice(ODD_MODES))
+    objs, snaps = {}, []
+
+    def hyper(n):
+        return roles[n][0] in ("hyper", "hyper2")
+
+    def allowed(n, m):
+        role, dim = roles[n]
+        if role == "tiny":
+            return False
+        if m == "int":
+            return classes[n] != "LinearRTO"        # CGLS adds floats in place into a copy of x0 (UFuncTypeError)
+        if m == "list":
+            if hyper(n):
+                return False                          # the user's lambda `1/d` cannot divide by a list
+            return classes[n] in ("MH", "CWMH", "ULA", "MALA", "NUTS") if iface == "hybrid" else True
+        if m in ("scalar", "0d"):
+            return dim == 1
+        return True
+
+    def base(n, integer=False):
+        role, dim = roles[n]
+        if hyper(n):
+            return np.array([float(rs.choice([1.0, 2.0, 3.0] if integer else [0.5, 1.5, 2.0, 3.0]))])
+        return rs.randint(-2, 3, size=dim).astype(float)
+
+    def snap(label, o):
+        if isinstance(o, np.ndarray):
+            snaps.append((label, o, (o.dtype.str, o.shape, o.tobytes())))
+        elif isinstance(o, list):
+            snaps.append((label, o, list(o)))
+
+    if mode == "shared":
+        by_dim = {}
+        for n in names:
+            if allowed(n, "shared"):
+                by_dim.setdefault(roles[n][1], []).append(n)
+        for dim, grp in by_dim.items():
+            if len(grp) >= 2:
+                arr = 2.0 * np.ones(dim) if any(hyper(n) for n in grp) else rs.randint(1, 4, size=dim).astype(float)
+                for n in grp:
+                    objs[n] = arr
+                snap("shared:" + ",".join(grp), arr)
+        return mode, objs, snaps
+    for n in names:
+        m = mode if mode != "mixed" else str(rs.choice(["int", "f32", "list", "scalar", "0d", "view", "ro", None]))
+        if m in (None, "None") or not allowed(n, m) or rs.rand() < 0.15:
+            continue
+        if m == "int":
+            o = base(n, True).astype(np.int64)
+        elif m == "f32":
+            o = base(n).astype(np.float32)
+        elif m == "list":
+            o = [float(t) for t in base(n)]
+        elif m == "scalar":
+            o = float(base(n)[0])
+        elif m == "0d":
+            o = np.array(float(base(n)[0]))
+        elif m == "view":
+            big = np.arange(10.0) + 1.0
+            k = int(rs.randint(0, 5))
+            big[k:k + roles[n][1]] = base(n)
+            o = big[k:k + roles[n][1]]
+            snap("base-of:" + n, big)
+        else:
+            o = base(n); o.setflags(write=False)
+        objs[n] = o
+        snap(n, o)
+    return mode, objs, snaps
+
+
+def modified_user_objects(snaps):
+    bad = []
+    for label, o, ref in snaps:
+        now = (o.dtype.str, o.shape, o.tobytes()) if isinstance(o, np.ndarray) else list(o)
+        if now != ref:
+            bad.append(label)
+    return bad
+
 # ----------------------------------------------------------------------------- recording
 class CondRecorder:
     """records the keyword dictionaries `JointDistribution._condition` is called with"""
@@ -271,7 +360,7 @@ def full_logd(post, others, name, x):
         return float(np.asarray(post.logd(**kw)).reshape(-1)[0])
 
 
-def same_conditional(target, post, others, name, point, scale=None):
+def same_conditional(target, post, others, name, point, scale=None, tol=1e-8):
     """the handed target and the full joint at (others, .) have the same log-density up to a constant:
     compared on the difference between two probe points (a constant offset does not change the conditional)"""
     p1, p2 = probes(None, point, scale)
@@ -282,7 +371,7 @@ def same_conditional(target, post, others, name, point, scale=None):
         return True, a, b
     # rounding of the individual log-densities (cancellation when they are huge) is allowed for
     mag = max(abs(t1), abs(t2), abs(f1), abs(f2))
-    return abs(a - b) <= 1e-8 * (1.0 + max(abs(a), abs(b))) + 1e-11 * mag, a, b
+    return abs(a - b) <= tol * (1.0 + max(abs(a), abs(b))) + 1e-11 * mag, a, b
 
 
 def tlogd(target, x):
@@ -299,6 +388,12 @@ def run_hybrid(ctx, cuqi, idx, rs, thorough, stats):
     names = list(post.get_parameter_names())
     scales = roles.get("__scale__", {})
     strategy = {n: (exp_sampler_E(cuqi, rs, roles, n) if tmpl == "E" else exp_sampler(cuqi, rs, *roles[n])) for n in names}
+    odd_mode, user_snaps = None, []
+    if rs.rand() < 0.4:
+        odd_mode, objs_, user_snaps = odd_initial_points(rs, names, roles, {n: type(strategy[n]).__name__ for n in names}, "hybrid")
+        for n, o in objs_.items():
+            strategy[n].initial_point = o
+    ftol = 1e-5 if odd_mode in ("f32", "mixed") else 1e-8   # float32 values conditioned on are evaluated in single precision
     # malformed strategies: one object under two names / a block without sampler / a key that is no parameter
     malformed = None
     u = rs.rand()
@@ -329,7 +424,14 @@ def run_hybrid(ctx, cuqi, idx, rs, thorough, stats):
     classes = {n: (type(strategy[n]).__name__ if n in strategy else None) for n in names}
     uinit = {n: (None if (n not in strategy or strategy[n].initial_point is None) else vec(strategy[n].initial_point).copy()) for n in names}
     dinit = {n: (vec(strategy[n]._get_default_initial_point(roles[n][1])) if n in strategy else np.ones(roles[n][1])) for n in names}
+    def ip_kind(o):
+        return None if o is None else (f"ndarray:{o.dtype}:{o.shape}" + ("" if o.flags.writeable else ":readonly") + (":view" if o.base is not None else "")
+                                        if isinstance(o, np.ndarray) else type(o).__name__)
     desc = {"iface": "HybridGibbs", "template": tmpl, "names": names, "samplers": classes, "malformed": malformed,
+            "initial_point_objects": {"mode": odd_mode, "kinds": {n: ip_kind(strategy[n].initial_point) for n in names if n in strategy},
+                                      "same_object": [[n for n in names if n in strategy and strategy[n].initial_point is o_] for o_ in
+                                                      {id(strategy[n].initial_point): strategy[n].initial_point for n in names if n in strategy and strategy[n].initial_point is not None}.values()
+                                                      if sum(1 for n in names if n in strategy and strategy[n].initial_point is o_) > 1]} if odd_mode else None,
             "num_sampling_steps": dict(nss) if nss is not None else None, "calls": calls, "scenario": idx,
             "initial_points": {n: (None if uinit[n] is None else uinit[n].tolist()) for n in names}}
     kind = "hybrid:" + tmpl
@@ -447,7 +549,7 @@ def run_hybrid(ctx, cuqi, idx, rs, thorough, stats):
                     fail("target", None, {m: expected[m].tolist() for m in bad if m in expected}, {m: oth[m].tolist() for m in bad if m in oth},
                          "the target held by the block sampler was conditioned on values that are not exactly the most recent values of the other blocks")
             try:
-                ok, a, b = same_conditional(tgt, post, expected, n, before, scales.get(n))
+                ok, a, b = same_conditional(tgt, post, expected, n, before, scales.get(n), ftol)
                 stats["target_probes"] = stats.get("target_probes", 0) + 1
                 if not (math.isfinite(a) and math.isfinite(b)):
                     stats["probe_nonfinite"] = stats.get("probe_nonfinite", 0) + 1
@@ -514,6 +616,13 @@ def run_hybrid(ctx, cuqi, idx, rs, thorough, stats):
         except Exception as e:
             ran = False
             err = f"{type(e).__name__}: {str(e)[:100]}"
+    # ORACLE: the user's initial_point objects are never written to
+    bad = modified_user_objects(user_snaps)
+    if odd_mode:
+        stats["odd_initial_points"][odd_mode] = stats["odd_initial_points"].get(odd_mode, 0) + 1
+    if bad:
+        ctx.fail(f"{K}:initial:user-array-modified", desc, "user's initial_point arrays untouched", bad,
+                 "the run wrote into an array the user passed as initial_point")
     if not ran:
         ctx.case(kind + ":crashed", desc, nontrivial=False)
         stats["run_errors"] = stats.get("run_errors", 0) + 1
@@ -543,6 +652,7 @@ def run_hybrid(ctx, cuqi, idx, rs, thorough, stats):
                    ";".join(f"{1 if m else 0}|{qv(a)}" for m, a in draws) if draws else "_")
     state["init"] = init
     state["scales"] = scales
+    state["ftol"] = ftol
     return line, (lambda out: compare_hybrid(ctx, K, desc, out, events, draws, snapshots, par_names, post, G, stats, state))
 
 
@@ -601,7 +711,7 @@ def compare_hybrid(ctx, K, desc, out, events, draws, snapshots, par_names, post,
             oth_m = {k: np.array(v) for k, v in pdict(f[2]).items()}
             p = np.array([float(__import__('fractions').Fraction(t)) for t in f[3].split(",")])
             try:
-                ok = same_conditional(tgt, post, oth_m, n, p, state.get('scales', {}).get(n))[0]
+                ok = same_conditional(tgt, post, oth_m, n, p, state.get('scales', {}).get(n), state.get('ftol', 1e-8))[0]
             except Exception:
                 ok = False
             if not ok:
@@ -629,7 +739,7 @@ def compare_hybrid(ctx, K, desc, out, events, draws, snapshots, par_names, post,
                 stats["probe_errors"] = stats.get("probe_errors", 0) + 1
                 continue
             stats["cache_tag_checks"] = stats.get("cache_tag_checks", 0) + 1
-            if not close(cval, want, 1e-8):
+            if not close(cval, want, state.get('ftol', 1e-8)):
                 # is the implementation's cache simply fresh (defect repaired)?  then the property holds here
                 fresh_t = f"{f[2]}@{f[3]}"
                 try:
@@ -641,7 +751,7 @@ def compare_hybrid(ctx, K, desc, out, events, draws, snapshots, par_names, post,
                         fresh = full_logd(post, oth_now, n, p)
                 except Exception:
                     fresh = None
-                if fresh is not None and close(cval, fresh, 1e-8):
+                if fresh is not None and close(cval, fresh, state.get('ftol', 1e-8)):
                     stats["cache_fresher_than_model"] = stats.get("cache_fresher_than_model", 0) + 1
                     continue
                 path = "nuts" if cls == "NUTS" else ("state-restored" if attr in G.samplers[n]._STATE_KEYS else "recomputed")
@@ -694,6 +804,13 @@ def run_legacy(ctx, cuqi, idx, rs, thorough, stats):
             v = np.array([float(rs.choice([0.5, 1.5, 2.0]))]) if roles[n][0] in ("hyper", "hyper2") else rs.randint(-2, 3, size=roles[n][1]).astype(float)
             post.get_density(n).init_point = v
             ipts[n] = v
+    odd_mode, user_snaps = None, []
+    if rs.rand() < 0.4:
+        odd_mode, objs_, user_snaps = odd_initial_points(rs, names, roles, classes, "legacy")
+        for n, o in objs_.items():
+            post.get_density(n).init_point = o
+            ipts[n] = vec(o)
+    ftol = 1e-5 if odd_mode in ("f32", "mixed") else 1e-8
     r = rs.rand()
     if r < 0.55:
         calls = [(int(rs.randint(1, 5)), int(rs.choice([0, 0, 1, 2, 3])))]
@@ -710,7 +827,7 @@ def run_legacy(ctx, cuqi, idx, rs, thorough, stats):
     else:
         calls = [(int(rs.randint(1, 4)), 0), (int(rs.randint(1, 4)), 0), (int(rs.randint(1, 3)), 0)]
     desc = {"iface": "legacy Gibbs", "template": tmpl, "names": names, "samplers": classes, "tuple_keys": [list(g_) for g_ in groups],
-            "calls": calls, "scenario": idx,
+            "calls": calls, "scenario": idx, "init_point_objects": odd_mode,
             "init_point": {n: v.tolist() for n, v in ipts.items()}}
     kind = "legacy:" + tmpl
     K = "Gibbs"
@@ -754,7 +871,7 @@ def run_legacy(ctx, cuqi, idx, rs, thorough, stats):
                         fail("target", {m: expected[m].tolist() for m in bad if m in expected}, {m: oth[m].tolist() for m in bad if m in oth},
                              "the target handed to the block sampler was conditioned on values that are not exactly the most recent values of the other blocks", {"block": n})
                 try:
-                    ok, a, b = same_conditional(self.target, post, expected, n, x0, scales.get(n))
+                    ok, a, b = same_conditional(self.target, post, expected, n, x0, scales.get(n), ftol)
                     stats["target_probes"] = stats.get("target_probes", 0) + 1
                     if not (math.isfinite(a) and math.isfinite(b)):
                         stats["probe_nonfinite"] = stats.get("probe_nonfinite", 0) + 1
@@ -852,6 +969,12 @@ def run_legacy(ctx, cuqi, idx, rs, thorough, stats):
             except Exception as e:
                 outcome = "crash:" + type(e).__name__ + ": " + str(e)[:80]
                 break
+    bad = modified_user_objects(user_snaps)
+    if odd_mode:
+        stats["odd_initial_points"]["legacy-" + odd_mode] = stats["odd_initial_points"].get("legacy-" + odd_mode, 0) + 1
+    if bad:
+        ctx.fail(f"{K}:initial:user-array-modified", desc, "user's init_point arrays untouched", bad,
+                 "the run wrote into an array the user attached as init_point")
     if outcome.startswith("crash"):
         ctx.case(kind + ":crashed", desc, nontrivial=False)
         stats["run_errors"] = stats.get("run_errors", 0) + 1
@@ -910,7 +1033,7 @@ def run_legacy(ctx, cuqi, idx, rs, thorough, stats):
                 if oth is None:
                     oth_m = {k: np.array(v) for k, v in pdict(f[2]).items()}
                     try:
-                        ok = same_conditional(tgt, post, oth_m, n, x0, scales.get(n))[0]
+                        ok = same_conditional(tgt, post, oth_m, n, x0, scales.get(n), ftol)[0]
                     except Exception:
                         ok = False
                     if not ok:
@@ -945,11 +1068,11 @@ def run(ctx):
     thorough = ctx.tier == "thorough"
     n_h = 60 if not thorough else 60 * min(ctx.scale * 2, 25)
     n_l = 40 if not thorough else 40 * min(ctx.scale * 2, 25)
-    stats = {"sampler_hist": {}}
+    stats = {"sampler_hist": {}, "odd_initial_points": {}}
     ctx.trusted += ["recording proxies of harness/props/c09.py (instance-level wrappers of sampler.step, _store_samples, _get_initial_points; class-level wrapper of JointDistribution._condition, removed after each run)",
                     "JointDistribution.logd of the unconditioned posterior as the reference for the handed targets (C01)"]
     ctx.assumptions += ["block transitions are leaf data: the point after each step() of the real sampler is fed to the model; what the sampler does with its target is the subject of C02/C06/C08/C10",
-                        "values are compared exactly (the model only moves values); log-densities with rel+abs tolerance 1e-8",
+                        "values are compared exactly (the model only moves values); log-densities with rel+abs tolerance 1e-8 (1e-5 in scenarios with float32 initial points)",
                         "warm-up tuning calls (step-size adaptation) are not modelled; they do not touch points, targets or storage"]
     pending = []
 
